@@ -318,12 +318,18 @@ class ConvolvedFluxes(object):
             # same units as the current ones for the interpolation, and we need
             # to add the flux unit back.
 
+            # The conversion can move an aperture that is exactly at the edge
+            # of the tabulated range (e.g. one that was just reset to the max)
+            # outside of it by round-off, so we clip after converting.
+            apertures_new = np.clip(c.apertures.to(self.apertures.unit).value,
+                                    self.apertures.min().value, self.apertures.max().value)
+
             flux_interp = interp1d(self.apertures, self.flux)
-            c.flux = flux_interp(c.apertures.to(self.apertures.unit)) * self.flux.unit
+            c.flux = flux_interp(apertures_new) * self.flux.unit
 
             # The following is not strictly correct - errors from interpolation is not interpolation of errors
             error_interp = interp1d(self.apertures, self.error)
-            c.error = error_interp(c.apertures.to(self.apertures.unit)) * self.error.unit
+            c.error = error_interp(apertures_new) * self.error.unit
 
         else:
 
